@@ -739,7 +739,7 @@ func runRawClient(id string, v primitive.ProtocolVersion, comp primitive.Compres
 				hsCompressed, len(rawHs.Body), rawHs.Body[:n], okAsSpec)
 		}
 	}
-	hs, err := p.rawFrames.ConvertFromRawFrame(rawHs)
+	hs, err := p.convertNegotiated(rawHs)
 	if err != nil {
 		res.fail("wire-format", "the response to STARTUP does not decode: %v", err)
 		return res
@@ -770,7 +770,7 @@ func runRawClient(id string, v primitive.ProtocolVersion, comp primitive.Compres
 			res.fail("handshake", "expected AUTHENTICATE, got %v", hs.Body.Message)
 			return res
 		}
-		if err := sendOne(frame.NewFrame(v, 1, &message.AuthResponse{Token: creds.Marshal()})); err != nil {
+		if err := sendOne(frame.NewFrame(v, 1, &message.AuthResponse{Token: plainToken("cassandra", "cassandra")})); err != nil {
 			res.fail("harness", "write AUTH_RESPONSE: %v", err)
 			return res
 		}
@@ -780,7 +780,7 @@ func runRawClient(id string, v primitive.ProtocolVersion, comp primitive.Compres
 			return res
 		}
 		if err != nil {
-			res.fail(map[bool]string{true: "wire-format", false: "handshake"}[isNotLegacy(err)], "no AUTH_SUCCESS (version %d): %v", v, err)
+			res.fail(map[bool]string{true: "wire-format", false: "handshake"}[isNotLegacy(err) || isWrongAlgorithm(err)], "no AUTH_SUCCESS (version %d): %v", v, err)
 			return res
 		}
 		if _, ok := ar.Body.Message.(*message.AuthSuccess); !ok {
@@ -865,7 +865,7 @@ func runRawClient(id string, v primitive.ProtocolVersion, comp primitive.Compres
 		for {
 			f, err := p.readFrame()
 			if err != nil {
-				if isNotLegacy(err) {
+				if isNotLegacy(err) || isWrongAlgorithm(err) {
 					res.fail("wire-format", "version %d, after the handshake, response %d from the server: %v", v, len(responses), err)
 				} else if isTimeout(err) {
 					res.fail("", "timed out waiting for the response to the last request")
@@ -1072,11 +1072,11 @@ func runRawServer(id string, v primitive.ProtocolVersion, comp primitive.Compres
 			}
 			ar = fs[0]
 		} else if ar, err = p.readFrame(); err != nil {
-			res.fail(map[bool]string{true: "wire-format", false: "handshake"}[isNotLegacy(err)], "no AUTH_RESPONSE (version %d): %v", v, err)
+			res.fail(map[bool]string{true: "wire-format", false: "handshake"}[isNotLegacy(err) || isWrongAlgorithm(err)], "no AUTH_RESPONSE (version %d): %v", v, err)
 			return res
 		}
 		m, ok := ar.Body.Message.(*message.AuthResponse)
-		if !ok || string(m.Token) != string(creds.Marshal()) {
+		if !ok || string(m.Token) != string(plainToken("cassandra", "cassandra")) {
 			res.fail("handshake", "unexpected AUTH_RESPONSE %v", ar.Body.Message)
 			return res
 		}
@@ -1143,7 +1143,7 @@ func runRawServer(id string, v primitive.ProtocolVersion, comp primitive.Compres
 		for range reqs {
 			f, err := p.readFrame()
 			if err != nil {
-				res.fail(map[bool]string{true: "wire-format", false: ""}[isNotLegacy(err)], "version %d, after the handshake, request %d of %d written by the client: %v", v, len(gotReq), len(reqs), err)
+				res.fail(map[bool]string{true: "wire-format", false: ""}[isNotLegacy(err) || isWrongAlgorithm(err)], "version %d, after the handshake, request %d of %d written by the client: %v", v, len(gotReq), len(reqs), err)
 				break
 			}
 			gotReq = append(gotReq, f)
